@@ -117,6 +117,19 @@ def hook_suite(name, quick, thorough, length=40, extra=None):
     }
 
 
+def lin_suite(name, impl, quick, thorough, extra=None):
+    return {
+        "name": name, "cmd": ["lin", "--impl", impl] + (extra or []),
+        "header": "From GK Require Import Lin.\nOpen Scope string_scope.\nOpen Scope list_scope.\nOpen Scope Z_scope.",
+        "hist_type": "lcase",
+        "eval": "Definition M := Eval vm_compute in lin_violations cfg_%s cases 0.\nPrint M.\n"
+                "Definition V := Eval vm_compute in M.\nPrint V." % impl,
+        "diag": "Eval vm_compute in (nth_error cases {k}).",
+        "sig": "false", "timeout": 1500,
+        "quick": quick, "thorough": thorough,
+    }
+
+
 SUITES = {
     "C01": {"suites": [
         repo_suite("c01-inmem", "inmem", "c01", "p_C01", {"n": 25, "shards": 8}, {"n": 200, "shards": 16, }),
@@ -126,6 +139,10 @@ SUITES = {
         repo_suite("c02-inmem", "inmem", "c02", "p_C02", {"n": 25, "shards": 8}, {"n": 200, "shards": 16}),
         repo_suite("c02-ent", "ent", "c02", "p_C02", {"n": 15, "shards": 6}, {"n": 120, "shards": 16}),
     ]},
+    "C10": {"suites": [
+        lin_suite("c10-inmem", "inmem", {"n": 60, "shards": 8}, {"n": 600, "shards": 16}),
+        lin_suite("c10-ent", "ent", {"n": 40, "shards": 6}, {"n": 400, "shards": 16}),
+    ], "rule": "2..4 goroutines x 2..4 operations (cancel / dispatch / update / mark-as-done / get / next / find / add) mostly on one shared task with tying keys, after a sequential setup and followed by a sequential read-back (Find(all), GetNext/Cancel drain); call and return are stamped with one atomic counter; the Coq checker searches a linearization under Repo.step; distinct = distinct recorded history"},
     "C11": {"suites": [
         repo_suite("c11-inmem", "inmem", "c11", "p_C11", {"n": 20, "shards": 8}, {"n": 150, "shards": 16}),
         repo_suite("c11-ent", "ent", "c11", "p_C11", {"n": 12, "shards": 5}, {"n": 100, "shards": 16}),
@@ -190,6 +207,7 @@ PROP_FILES = {
     "C17": ["Props/C17.v"],
     "C03": ["Props/C03.v"], "C04": ["Props/C04.v"], "C05": ["Props/C05.v"], "C06": ["Props/C06.v"],
     "C07": ["Props/C07.v"], "C20": ["Props/C20.v"],
+    "C10": ["Props/C10.v"],
     "C08": ["Props/C08.v"],
     "C09": ["Props/C09.v"],
 }
@@ -208,6 +226,7 @@ ASSUMPTIONS = [
 ]
 
 PARTIAL = {
+    "C10": "mutual exclusion of sync.Mutex, atomicity of one SQLite statement and the Go memory model are assumed; real concurrent histories are recorded and judged, goroutine interleavings are sampled by the runtime, not enumerated",
     "C08": "goroutine scheduling, the unbuffered-channel rendezvous and ngicks/workerpool (Add/Remove/worker loop) are modelled by an LTS over observable events, not verified; the real dispatcher's event sequences are validated against it",
     "C13": "durability and single-statement atomicity of SQLite are assumed by the model (each acknowledged operation = one transition); exercised by the harness, not proved",
 }
